@@ -147,7 +147,7 @@ impl Corpus {
 pub fn gen_corpus(rng: &mut Rng, n_docs: usize, max_commits: usize) -> Corpus {
   let n_bodies = rng.urange(2, 7);
   let bodies: Vec<String> = (0..n_bodies).map(|_| words(rng, 1, 5)).collect();
-  let rough = rng.chance(0.6);
+  let rough = rng.chance(0.35);
   let layout = vcore::gen::layout(rng, n_docs, max_commits);
   let mut commits = Vec::new();
   let mut next = 0usize;
